@@ -39,6 +39,10 @@ def make_tags(t: dict):
         return enum.IntEnum("Tags", members)
     if fl == "py_intflag":
         return enum.IntFlag("Tags", members)
+    if fl == "py_enum":  # a plain (non-int) enum.Enum with integer values: the signature says type[Enum]
+        return enum.Enum("Tags", members)
+    if fl == "py_flag":
+        return enum.Flag("Tags", members)
     from amaranth.hdl import signed, unsigned
     from amaranth.lib import enum as aenum
 
@@ -79,16 +83,20 @@ def tag_facts(t: dict) -> dict:
 # the stub
 
 
-def make_harness(metric, kind, groups, contend, arg_shape):
+def make_harness(metric, kind, groups, contend, arg_shape, via=()):
     from amaranth import Elaboratable, Signal
     from amaranth.lib.data import StructLayout
-    from transactron import TModule, Transaction
+    from transactron import TModule, Transaction, Method, def_method
+
+    via = list(via) + [0] * (len(groups) - len(via))
 
     nways = sum(len(g) for g in groups)
 
     class Harness(Elaboratable):
         """Callers of the metric: transaction j calls the ways of groups[j]; optionally one more
-        transaction calls way 0 too (so the two contend for an exclusive method)."""
+        transaction calls way 0 too (so the two contend for an exclusive method).  via[j] = d > 0: the calls
+        of transaction j are made from the body of a Method, d levels below the transaction ("should be called in
+        the body of either a transaction or a method")."""
 
         def __init__(self):
             self.en = [Signal(name=f"t{j}_en") for j in range(len(groups))]
@@ -99,6 +107,19 @@ def make_harness(metric, kind, groups, contend, arg_shape):
             self.x_done = Signal()
             self.x_ec = Signal()
             self.x_arg = Signal(StructLayout({"a": arg_shape})) if arg_shape is not None else None
+            self.relay = {(j, d): Method(name=f"relay{j}_{d}") for j in range(len(groups)) for d in range(via[j])}
+
+        def calls_of(self, m, grp):
+            for k in grp:
+                self.call(m, k, self.ec[k], self.arg[k] if self.arg else None)
+
+        def define_relay(self, m, j, d, grp):
+            @def_method(m, self.relay[(j, d)])
+            def _():
+                if d + 1 < via[j]:
+                    self.relay[(j, d + 1)](m)
+                else:
+                    self.calls_of(m, grp)
 
         def call(self, m, k, ec, arg):
             if kind == "counter":
@@ -112,10 +133,14 @@ def make_harness(metric, kind, groups, contend, arg_shape):
             m = TModule()
             m.submodules.dut_metric = metric
             for j, grp in enumerate(groups):
+                for d in range(via[j]):
+                    self.define_relay(m, j, d, grp)
                 with Transaction(name=f"caller{j}").body(m, ready=self.en[j]):
                     m.d.comb += self.done[j].eq(1)
-                    for k in grp:
-                        self.call(m, k, self.ec[k], self.arg[k] if self.arg else None)
+                    if via[j]:
+                        self.relay[(j, 0)](m)
+                    else:
+                        self.calls_of(m, grp)
             if contend:
                 with Transaction(name="contender").body(m, ready=self.x_en):
                     m.d.comb += self.x_done.eq(1)
@@ -140,7 +165,8 @@ class Scen(CompScenario):
         self.ways = c["ways"]
         self.groups = [list(g) for g in c["groups"]]
         self.contend = bool(c.get("contend"))
-        self.width = 32 if c["width"] is None else c["width"]  # None: the constructor's default (32 bits)
+        # None: the argument is not passed -- the constructor's documented default (32 bits) is in force
+        self.width = 32 if c["width"] is None else c["width"]
         arg_shape = None
         if self.kind == "counter":
             kw = {} if c["width"] is None else {"width_bits": c["width"]}
@@ -153,11 +179,18 @@ class Scen(CompScenario):
             arg_shape = self.dut.tag_shape
         else:
             kw = {} if c["width"] is None else {"registers_width": c["width"]}
+            self.sw = 32 if c["sample_width"] is None else c["sample_width"]
+            if c["sample_width"] is not None:
+                kw["sample_width"] = c["sample_width"]
             self.dut = HwExpHistogram("dut.hist", "histogram under test", bucket_count=c["bucket_count"],
-                                      sample_width=c["sample_width"], ways=self.ways, **kw)
-            arg_shape = c["sample_width"]
-        self.h = make_harness(self.dut, self.kind, self.groups, self.contend, arg_shape)
+                                      ways=self.ways, **kw)
+            arg_shape = self.sw  # what a user of the documented interface connects
+        self.via = list(c.get("via_method") or [])
+        self.via += [0] * (len(self.groups) - len(self.via))
+        self.h = make_harness(self.dut, self.kind, self.groups, self.contend, arg_shape, self.via)
         self.top.add("harness", self.h)
+        if self.enabled:
+            self.check_register_widths()
 
         for j in range(len(self.groups)):
             self.add_input(f"t{j}.en", self.h.en[j])
@@ -196,13 +229,29 @@ class Scen(CompScenario):
         self.m_count = 0
         self.m_tags = {t: 0 for t in getattr(self, "tagvals", [])}
         if self.kind == "hist":
-            self.m_hist = HistModel(c["bucket_count"], c["sample_width"], self.width)
+            self.m_hist = HistModel(c["bucket_count"], self.sw, self.width)
         self.way_group = {}
         for j, g in enumerate(self.groups):
             for k in g:
                 self.way_group[k] = j
         self.hit("cfg_" + self.kind + ("" if self.enabled else "_disabled"))
         return self.top
+
+    # ---- "modulo register width": the counting registers have the width given / the documented default -------
+    def check_register_widths(self):
+        """The registers a user reads (metric.regs: MetricRegisterModel.width and the Signal behind it) are as wide
+        as `width_bits` / `registers_width` says -- 32 when the argument is not passed ("Defaults to 32 bits").
+        The histogram's min / max hold samples, not counts: they are left to the behavioural comparison."""
+        dflt = self.cfg["width"] is None
+        for name, reg in self.dut.regs.items():
+            if self.kind == "hist" and name in ("min", "max"):
+                continue
+            w_decl, w_sig = reg.width, len(reg.value)
+            if w_decl != self.width or w_sig != self.width:
+                raise Violation("default-register-width-mismatch" if dflt else "register-width-mismatch",
+                                f"register `{name}` of the {self.kind}: declared width {w_decl}, signal width {w_sig}; "
+                                f"{'documented default' if dflt else 'requested'} {self.width}", reg=name)
+        self.hit("default_register_width_checked" if dflt else "register_width_checked")
 
     # ---- disabled metrics produce no hardware ---------------------------------------------------
     def post_elab(self, tm):
@@ -249,7 +298,7 @@ class Scen(CompScenario):
             if kind == "extremes":
                 return rng.choice([0, n - 1])
             return rng.randrange(n)
-        w = c["sample_width"]
+        w = self.sw
         mx = (1 << w) - 1
         r = rng.random()
         if kind == "extremes" or r < 0.3:
@@ -331,6 +380,10 @@ class Scen(CompScenario):
                 for k in grp:
                     if stim.get(f"w{k}.ec", 0):
                         calls.append((k, stim.get(f"w{k}.{argname}", 0)))
+                        if self.enabled and self.via[j]:
+                            self.hit("call_from_method_body")
+                            if self.via[j] > 1:
+                                self.hit("call_from_nested_method_body")
                     else:
                         self.hit("ec_masked_call")
         if self.contend and done["x"]:
@@ -339,6 +392,11 @@ class Scen(CompScenario):
             else:
                 self.hit("ec_masked_call")
         n = len(calls)
+        if self.enabled:
+            if n and self.cfg["width"] is None:
+                self.hit("default_width_counted")
+            if n and self.width <= 2:
+                self.hit("narrow_register_counted")
         if n >= 2:
             self.hit("multi_way_same_cycle")
         if n == self.ways and n >= 2:
@@ -365,6 +423,10 @@ class Scen(CompScenario):
             if tags and self.enabled:
                 f = self.facts
                 self.hit(f"form_{f['tag_form']}_counted")
+                if f["flavor"] in ("py_enum", "py_flag", "py_intflag", "am_intflag", "am_flag"):
+                    self.hit(f"flavor_{f['flavor']}_counted")
+                if f["tag_form"] == "range" and self.tagvals[0] != 0:
+                    self.hit("range_nonzero_start_counted")
                 if any(t < 0 for t in tags):
                     self.hit("negative_tag_counted")
                 if f["one_hot"]:
@@ -376,10 +438,30 @@ class Scen(CompScenario):
         else:
             samples = [a for _, a in calls]
             for a in samples:
-                self.premise(0 <= a < (1 << self.cfg["sample_width"]), "sample does not fit the sample width")
+                self.premise(0 <= a < (1 << self.sw), "sample does not fit the sample width")
             ev = self.m_hist.add_cycle(samples)
             for name in ev:
                 self.hit("hist_" + name)
+            if samples and self.enabled:
+                bc, csw = self.cfg["bucket_count"], self.cfg["sample_width"]
+                if bc <= 2:
+                    self.hit("hist_one_bucket_sampled" if bc == 1 else "hist_two_buckets_sampled")
+                    if bc == 1 and any(samples):
+                        self.hit("hist_one_bucket_nonzero_sample")
+                if csw is None:
+                    self.hit("hist_default_sample_width_sampled")
+                    if max(samples) >> 16:
+                        self.hit("hist_sample_above_16_bits")
+                elif csw <= 2:
+                    self.hit("hist_sample_width_1_2_sampled")
+                elif csw >= 7:
+                    self.hit("hist_sample_width_7_16_sampled")
+                if bc > self.sw + 1:
+                    self.hit("hist_more_buckets_than_sample_bits")
+                if self.ways > 3:
+                    self.hit("hist_ways_gt3_sampled")
+                    if len(samples) > 3:
+                        self.hit("hist_more_than_3_samples_same_cycle")
             from ..models.metrics_model import bucket_of
 
             self.visit(("hist", self.cfg["bucket_count"], self.cfg["sample_width"],
@@ -401,6 +483,10 @@ def _members(vals):
     return [[f"T{v}" if v >= 0 else f"TM{-v}", v] for v in vals]
 
 
+# enum flavours for sets of powers of two (Flag / IntFlag classes list only single-bit members when iterated)
+_ONEHOT_FLAVORS = ["py_int", "py_intflag", "am_int", "am_intflag", "am_flag", "am_enum", "py_enum", "py_flag"]
+
+
 def gen_tags(rng):
     r = rng.random()
     cls = "sparse" if r < 0.10 else "dense" if r < 0.35 else "generic"
@@ -415,7 +501,7 @@ def gen_tags(rng):
         if form == "list":
             rng.shuffle(vals)
             return {"form": "list", "values": vals}
-        fl = rng.choice(["py_int", "py_intflag", "am_int", "am_intflag", "am_flag", "am_enum"])
+        fl = rng.choice(_ONEHOT_FLAVORS)
         t = {"form": "enum", "flavor": fl, "members": _members(vals), "shape": None}
         if fl in ("am_flag", "am_enum") and rng.random() < 0.6:
             t["shape"] = [0, n]
@@ -436,7 +522,7 @@ def gen_tags(rng):
         if dense:
             return {"form": "enum", "flavor": rng.choice(["am_flag", "am_enum"]), "members": _members(vals),
                     "shape": [0, len(vals) + rng.randint(1, 2)]}
-        fl = rng.choice(["py_int", "py_intflag", "am_int", "am_intflag", "am_flag", "am_enum"])
+        fl = rng.choice(_ONEHOT_FLAVORS)
         t = {"form": "enum", "flavor": fl, "members": _members(vals), "shape": None}
         if fl in ("am_flag", "am_enum") and rng.random() < 0.4:
             t["shape"] = [0, max(vals).bit_length() + rng.randint(0, 1)]
@@ -456,7 +542,7 @@ def gen_tags(rng):
                 t = {"form": "list", "values": vals}
             else:
                 neg = min(vals) < 0
-                fl = rng.choice(["py_int", "am_int", "am_enum"])
+                fl = rng.choice(["py_int", "am_int", "am_enum", "py_enum"])
                 t = {"form": "enum", "flavor": fl, "members": _members(vals), "shape": None}
                 # (an amaranth Enum with an explicit *signed* shape cannot be a struct field at all in amaranth
                 # 0.5.9 -- "EnumView target must have the same shape" -- so explicit shapes are unsigned only)
@@ -483,10 +569,13 @@ class Prop(PropBase):
         "quick": {"runs": 4000, "selftest_runs": 4, "run_budget_s": 120},
         "thorough": {"runs": 40000, "selftest_runs": 32},
     }
-    rule = ("one run = one metric kind (HwCounter / TaggedCounter / HwExpHistogram) in one configuration (ways, register "
-            "width 3-6 mostly so registers wrap, tag set of one of the three documented forms incl. negative values and "
-            "one-hot sets with and without gaps, bucket count x sample width, metrics enabled or disabled, grouping of the "
-            "ways into calling transactions, optional second caller of way 0) driven for 50-200 cycles by a seeded phase "
+    rule = ("one run = one metric kind (HwCounter / TaggedCounter / HwExpHistogram) in one configuration (ways 1-4, histogram "
+            "up to 6; register width 1-6 mostly so registers wrap, 8 / 32, or not passed = the documented default of 32 bits, "
+            "which is also checked on the registers themselves; tag set of one of the three documented forms incl. negative "
+            "values, one-hot sets with and without gaps, int / plain / flag enums of the standard library and of amaranth; "
+            "bucket count 1-17 x sample width 1-16 or the default 32; metrics enabled or disabled, grouping of the "
+            "ways into calling transactions, calls made from a transaction body or from a method body one or two levels "
+            "below it, optional second caller of way 0) driven for 50-200 cycles by a seeded phase "
             "plan (random / burst / idle / single / extremes); distinct = distinct (metric, configuration class, register "
             "state class, multiset of executed calls); non-trivial = two or more calls in one cycle, a register wrapped, "
             "or a histogram boundary event (new min/max, bucket boundary sample, last bucket, sum wrap)")
@@ -497,7 +586,13 @@ class Prop(PropBase):
                     "hist_same_bucket_multi", "hist_last_bucket", "hist_beyond_last_bucket_start", "hist_zero_sample",
                     "hist_bucket_lower_bound", "hist_bucket_upper_bound", "hist_max_sample", "contention_both_requested",
                     "disabled_call_accepted", "disabled_no_hardware_checked", "cfg_counter_disabled",
-                    "cfg_tagged_disabled", "cfg_hist_disabled"]
+                    "cfg_tagged_disabled", "cfg_hist_disabled", "call_from_method_body", "call_from_nested_method_body",
+                    "default_register_width_checked", "default_width_counted", "register_width_checked",
+                    "narrow_register_counted", "flavor_py_enum_counted", "flavor_py_flag_counted", "flavor_py_intflag_counted",
+                    "range_nonzero_start_counted", "onehot_sparse_counted", "hist_one_bucket_sampled",
+                    "hist_one_bucket_nonzero_sample", "hist_two_buckets_sampled", "hist_default_sample_width_sampled",
+                    "hist_sample_above_16_bits", "hist_sample_width_1_2_sampled", "hist_sample_width_7_16_sampled",
+                    "hist_more_buckets_than_sample_bits", "hist_ways_gt3_sampled", "hist_more_than_3_samples_same_cycle"]
     real = ["transactron.lib.metrics.HwCounter", "transactron.lib.metrics.TaggedCounter",
             "transactron.lib.metrics.HwExpHistogram", "HwMetricsEnabledKey via the run's DependencyManager",
             "Transaction / Method / def_methods", "TransactionManager + scheduler", "amaranth pysim"]
@@ -514,14 +609,29 @@ class Prop(PropBase):
         metric = "counter" if r < 0.2 else "tagged" if r < 0.62 else "hist"
         enabled = rng.random() < 0.88
         ways = rng.randint(1, 3 if metric == "hist" else 4)
-        width = rng.choice([3, 4, 5, 6]) if rng.random() < 0.85 else rng.choice([8, 32, None])
+        if metric == "hist" and rng.random() < 0.12:
+            ways = rng.randint(4, 6)
+        # register width: 1-2 bits (wraps every other call), 3-6 (wraps within a run), 8 / 32 explicit, or the argument
+        # is not passed at all (None: the documented default of 32 bits)
+        r = rng.random()
+        width = rng.choice([1, 2]) if r < 0.12 else rng.choice([3, 4, 5, 6]) if r < 0.75 else rng.choice([8, 32]) if r < 0.85 \
+            else None
+        groups = gen_groups(rng, ways)
         cfg = {"metric": metric, "enabled": enabled, "explicit_key": bool(rng.random() < 0.5), "ways": ways, "width": width,
-               "groups": gen_groups(rng, ways), "contend": bool(rng.random() < 0.2)}
+               "groups": groups, "contend": bool(rng.random() < 0.2)}
+        # a share of the calling transactions call the metric from the body of a Method (1 or 2 levels down)
+        via = [0] * len(groups)
+        if rng.random() < 0.3:
+            via = [rng.choice([0, 1, 1, 2]) for _ in groups]
+        cfg["via_method"] = via
         if metric == "tagged":
             cfg["tags"] = gen_tags(rng)
         if metric == "hist":
-            cfg["bucket_count"] = rng.randint(2, 6) if rng.random() < 0.9 else rng.choice([7, 8])
-            cfg["sample_width"] = rng.randint(3, 6)
+            r = rng.random()
+            cfg["bucket_count"] = 1 if r < 0.08 else 2 if r < 0.16 else rng.randint(2, 6) if r < 0.92 else rng.choice([7, 8, 12, 17])
+            r = rng.random()
+            cfg["sample_width"] = rng.randint(1, 2) if r < 0.14 else rng.randint(3, 6) if r < 0.62 else \
+                rng.randint(7, 16) if r < 0.9 else None  # None: not passed, the default of 32 bits
             cfg["drift"] = rng.choice(["none", "down", "up", "spread"])
             cfg["drift_len"] = rng.randint(10, 80)
         cycles = rng.randint(*((100, 600) if big else (50, 200))) if enabled else rng.randint(10, 40)
@@ -540,6 +650,10 @@ class Prop(PropBase):
              "exc": info.get("exc"), "where": info.get("where"), "reg": info.get("reg")}
         if cfg["metric"] == "tagged":
             f.update(tag_facts(cfg["tags"]))
+        if cfg["metric"] == "hist":
+            f.update({"bucket_count": cfg["bucket_count"], "sample_width": cfg["sample_width"]})
+        f["default_width"] = cfg["width"] is None
+        f["via_method"] = any(cfg.get("via_method") or [])
         return f
 
     def violation_class(self, feats):
@@ -549,15 +663,23 @@ class Prop(PropBase):
         return {k: v for k, v in cfg.items() if k not in ("plan", "cycles", "drift_len")}
 
     def shrink_cfg(self, cfg):
+        via = list(cfg.get("via_method") or [])
+        via += [0] * (len(cfg["groups"]) - len(via))
+        if any(via):  # all calls made from transaction bodies
+            c = dict(cfg)
+            c["via_method"] = [0] * len(cfg["groups"])
+            yield c
         if cfg["ways"] > 1:  # drop the last way
             c = dict(cfg)
             c["ways"] = cfg["ways"] - 1
-            c["groups"] = [[k for k in g if k < c["ways"]] for g in cfg["groups"]]
-            c["groups"] = [g for g in c["groups"] if g]
+            gs = [[k for k in g if k < c["ways"]] for g in cfg["groups"]]
+            c["groups"] = [g for g in gs if g]
+            c["via_method"] = [v for g, v in zip(gs, via) if g]
             yield c
         if len(cfg["groups"]) > 1:  # one transaction calls everything
             c = dict(cfg)
             c["groups"] = [list(range(cfg["ways"]))]
+            c["via_method"] = [max(via)]
             yield c
         if cfg.get("contend"):
             c = dict(cfg)
